@@ -101,8 +101,10 @@ pub trait Property {
         10
     }
     /// build a case from a raw fuzzer input (libFuzzer artifact), if the property has a byte-level target
-    fn case_from_raw(&mut self, _raw: &[u8]) -> Option<Self::Case> {
-        None
+    fn case_from_raw(&mut self, raw: &[u8]) -> Option<Self::Case> {
+        // default: the bytes are a choice tape of this property's shape (libFuzzer target `model_tape`)
+        let shape = self.shape();
+        Some(self.decode(&crate::tape::tape_from_raw(&shape, raw)))
     }
 }
 
